@@ -167,6 +167,10 @@ def run(ctx):
         if model in ("default", "BWR2", "BWR_normal", "BWR_coupling", "BWR_below") and (i // len(MODELS)) % 3 == 1:
             bw_l_cfg = (MODELS.index(model) * 3 + i // len(MODELS)) % 4  # deterministic rotation: the default model meets bw_l = 0 in the quick tier
             part["bw_l"] = bw_l_cfg
+            if not ls_model and J == bw_l_cfg:
+                # the configured value must differ from the orbital angular momentum the decay itself would give
+                J = (J + 1) % 5
+                part["J"], part["P"] = J, (-1) ** J
         ctx.covered("bw_l", "explicit %d" % bw_l_cfg if bw_l_cfg is not None else "from the decay")
         extra = {}
         if model in ("Flatte", "FlatteC"):
